@@ -1,0 +1,68 @@
+//go:build verif
+
+// Ownership contracts for lazily initialised state (property C11), read by /verif/engine (govc).
+// Comments only. Design and limits: /verif/notes/w-c17.md (section C11).
+package rel
+
+// The units below carry no `tags`: their implicit safety obligations (nil checks on values returned by
+// helpers without contracts, ...) belong to C10 and are NOT claimed here; only the guard.* /
+// frame.captured.* obligations (and the marker clause c11unit) count for C11.
+// Every store to a guarded field must happen while its guard is held (inside the function literal
+// handed to <guard>.Do, or between Lock and Unlock); every load must happen with the guard held or
+// after a call of <guard>.Do has returned in the same function (sync.Once: happens-before).
+//@ guarded rel.GenericTuple.names by orderNamesOnce
+//@ guarded rel.GenericTuple.cachedNames by cachedNamesOnce
+//@ guarded rel.GenericTuple.cachedBucket by cachedBucketOnce
+//@ guarded rel.positionalRelation.meta by once
+//@ guarded rel.positionalRelationMetadata.indices by Mutex
+
+//@ func TupleOrderedNames(t)
+//@   ensures[C11] c11unit: true
+//@   requires t != nil
+//@ func TupleOrderedNames$1()
+//@   ensures[C11] c11unit: true
+//@   requires captured_t: t != nil
+//@   fnparam * opaque
+
+//@ func (*GenericTuple).Names(t)
+//@   ensures[C11] c11unit: true
+//@   requires t != nil
+//@ func (*GenericTuple).Names$1()
+//@   ensures[C11] c11unit: true
+//@   requires captured_t: t != nil
+
+//@ func (*GenericTuple).getBucket(t)
+//@   ensures[C11] c11unit: true
+//@   requires t != nil
+//@ func (*GenericTuple).getBucket$1()
+//@   ensures[C11] c11unit: true
+//@   requires captured_t: t != nil
+
+//@ func (*positionalRelation).getMeta(r)
+//@   ensures[C11] c11unit: true
+//@   requires r != nil
+//@ func (*positionalRelation).getMeta$1()
+//@   ensures[C11] c11unit: true
+//@   requires captured_r: r != nil
+
+//@ func (*positionalRelationMetadata).computeIndex(prm; key, fn)
+//@   ensures[C11] c11unit: true
+//@   requires prm != nil
+//@   fnparam fn opaque
+//@   abstract defer
+
+// ---- callback purity ------------------------------------------------------------------------------
+// Function literals handed to frozen combinators that may run them on several goroutines at once
+// (frozen runs Where/Map callbacks in parallel above 131072 elements) must not write captured
+// variables: `assigns nothing` makes a store to a captured variable fail frame.captured.<name>.
+// (`govc capscan rel syntax` lists the literals passed directly to frozen functions.)
+//@ func (GenericSet).Where$1(elem)
+//@   ensures[C11] c11unit: true
+//@   assigns nothing
+//@   fnparam * opaque
+//@ func (*positionalRelation).Where$1(elem)
+//@   ensures[C11] c11unit: true
+//@   assigns nothing
+//@   fnparam * opaque
+// (rel.Relation).canonicalRelation$1 is the third literal passed directly to a frozen combinator; it
+// writes no captured variable (capscan) and is not put under contract here (its body needs C04 contracts).
